@@ -861,6 +861,10 @@ func (sema *ExprSemanticsChecker) checkFuncCall(n *FuncCallNode) ExprType {
 			ss = append(ss, n)
 		}
 		sema.errorf(n, "undefined function %q. available functions are %s", n.Callee, sortedQuotes(ss))
+		// The arguments are still expressions of their own: foo(github.event.issue.title)
+		for _, a := range n.Args {
+			sema.check(a)
+		}
 		return AnyType{}
 	}
 
